@@ -75,6 +75,7 @@ type c13Oracle struct {
 }
 
 type c13Run struct {
+	slashFraction       sdkmath.LegacyDec // the configured penalty fraction while governance has it switched to zero
 	spec                c13Spec
 	c                   *chain.Chain
 	b                   *fix.Bridge
@@ -200,6 +201,11 @@ func (r *c13Run) checkIndexes(what string) {
 	for addr, o := range records {
 		if o.Online && !r.b.K.IsProposalOracle(r.c.Ctx, addr) {
 			r.res.Violate("C13/online-oracle-not-approved", "%s: oracle %s is online but not in the governance list", what, addr)
+		}
+		if o.Online && o.SlashTimes != 0 {
+			// a penalty is counted when an oracle is taken offline and settled when it comes back: an online
+			// oracle carries none (a stale count would be charged again at the next occasion)
+			r.res.Violate("C13/online-oracle-carries-penalty-count", "%s: online oracle %s has a penalty count of %d", what, addr, o.SlashTimes)
 		}
 		if o.Online && (o.DelegateAmount.LT(threshold) || o.DelegateAmount.GT(max)) {
 			r.res.Violate("C13/stake-out-of-bounds", "%s: online oracle %s has recorded stake %s outside [%s, %s]", what, addr, o.DelegateAmount, threshold, max)
@@ -450,8 +456,19 @@ func (r *c13Run) run() {
 			if res.OK() && found {
 				r.res.Violate("C13/duplicate-identity-accepted", "a second oracle bonded with oracle %d's bridger or external address", i)
 			}
-		case x < 44: // edit bridger / redelegate / withdraw reward
-			switch rng.IntN(3) {
+		case x < 44: // edit bridger / redelegate / withdraw reward / governance switches the penalty off and on
+			switch rng.IntN(4) {
+			case 3:
+				p := b.K.GetParams(c.Ctx)
+				if p.SlashFraction.IsZero() {
+					p.SlashFraction = r.slashFraction
+				} else {
+					r.slashFraction = p.SlashFraction
+					p.SlashFraction = sdkmath.LegacyZeroDec()
+				}
+				if res := c.Msg(&crosschaintypes.MsgUpdateParams{ChainName: spec.Chain, Authority: chain.GovAuthority(), Params: p}); res.OK() {
+					r.res.Count("slash_fraction_changes", 1)
+				}
 			case 0:
 				nb := chain.DeriveKey(spec.Seed, "newbridger", step)
 				res := c.Msg(&crosschaintypes.MsgEditBridger{ChainName: spec.Chain, OracleAddress: o.Oracle.Bech32(), BridgerAddress: nb.Bech32()})
